@@ -28,5 +28,8 @@ CFG = dict(
                  "parameter settings are explored by single-field boundary shocks of the governance messages the C17 constructor table knows (one field at a time, a fixed set of "
                  "boundary values per type), not exhaustively; the static table of blocker error/panic sites (DESIGN 3.2 Gen/Blockers) is not built"],
     explanation="PARTIAL (level other). Lean: masterchef's end-blocker cannot fail in any environment that validation and the standard wiring guarantee, whether or not fee conversions "
-                "fail; each hypothesis is needed; witness of the repaired halt. Behavioural: every block of every history, with fault sequences, must be processed without error or panic.",
+                "fail and whatever the pools' Eden allocations of the block are (for all allocation lists; before 932554d exactly the allocations strictly between 0 and 1 base unit "
+                "halted: iff theorem + witness); the epochs begin-blocker survives the estaking hook whatever the provider's vesting claim does (witness of the earlier halt); the "
+                "protocol's remainder after the provider's portion is non-negative for every amount under the repaired validation (witness for the earlier one); each hypothesis of "
+                "ok_under is needed. Behavioural: every block of every history, with fault sequences and governance shocks, must be processed without error or panic.",
 )
